@@ -1,29 +1,38 @@
 /-
-C08 — model of equality and hashing of DSL objects (forml/io/dsl/_struct/{series,frame,kind}.py).
+C08 — model of hashing of DSL objects (forml/io/dsl/_struct/{series,frame,kind}.py) and of their equality as it was
+BEFORE fixes/C08-structural-eq.diff ("legacy": hash-based equality of features, plain tuple equality of sources).
+The equality of the repaired code is modelled in `ForML.Model.DslIdent` (which imports this file for the hashes);
+the legacy definitions are kept because `ForML.Lemmas.C08Legacy` proves what was wrong with them and because
+`ForML.Model.Grammar` (C07) uses `hashEq`.
 
 The specification is the derived structural `DecidableEq` of `ForML.Model.Dsl`.
-The implementation's equality (`implEq`) follows the code that exists:
+
+Hashes (current code, unchanged by the repair):
 
 * `series.Feature.__hash__`        = `hash(cls) ^ tuple.__hash__(self)`                    → `Feature.H`
-* `series.Operable.__eq__`         = `Comparison.Pythonic(Equal, self, cast(other).operable)` whose
-  `__bool__` is `hash(left) == hash(right)` (`series.py:791`, same in `Equal.__bool__` `:855`)  → `Feature.implEq`
-* `series.Aliased`, `series.Ordering`, every `frame.Source` are plain tuples: `tuple.__eq__`, i.e.
-  element-wise `==` left to right, stopping at the first unequal element, then the lengths   → `Source.implEq`, `tupleEq`
 * `frame.Source.__hash__`          = `hash(module) ^ hash(qualname) ^ tuple.__hash__(self)`  → `Source.H`
   (a table is an instance of a class created per schema and *named after it*)
 * `frame.Source.Schema.__eq__/__hash__` = ordered field-wise equality / xor of the field hashes, the
-  schema's own name takes no part                                                           → `fieldsH`, `Source.implEq` (table case)
+  schema's own name takes no part                                                           → `fieldsH`, `fieldsEq`
 * `kind.Any.__eq__/__hash__`       = by class (+ tuple content for compounds): structural    → `Kind.H`, `Kind.implEq`
 
 `hash` itself is modelled through `HashEnv`: `pyIntHash` is exact for integers, every other component
 (`str`, class objects, `None`, float, `tuple.__hash__`, `^`) is a parameter, so that only congruence
-(equal inputs give equal hashes) is ever used.  Comparisons can raise in the implementation
-(`Literal(None)`, `Literal(<table>)` → `ValueError` from `kind.reflect`): `implEq` returns `Option Bool`,
-`none` = raises.
+(equal inputs give equal hashes) is ever used.
 
-Not faithful, never generated by the correspondence check (see design.d/C08.md): `Window` stores a
-generator object as its ordering (identity hash), the model hashes it as a tuple; an `Aliased` on the
-left of `==` with a non-element operable on the right is modelled as `false`.
+Legacy equality (`implEq`, the code before the repair):
+
+* `series.Operable.__eq__`         = `Comparison.Pythonic(Equal, self, cast(other).operable)` whose
+  `__bool__` was `hash(left) == hash(right)` (so was `Equal.__bool__`)                       → `Feature.implEq`, `hashEq`
+* `series.Aliased`, `series.Ordering`, every `frame.Source` were plain tuples: `tuple.__eq__`, i.e.
+  element-wise `==` left to right, stopping at the first unequal element, then the lengths   → `Source.implEq`, `aliasEq`
+* comparisons can raise (`Literal(None)`, `Literal(<table>)` → `ValueError` from `kind.reflect`): `implEq` returns
+  `Option Bool`, `none` = raises
+* `Kind.pickle` …: compound kinds had no `__getnewargs__` and did not read back
+
+Not faithful in the legacy part (windows are never sent to it): `Window` stores a generator object as its ordering
+(identity hash), `Feature.H` hashes it as a tuple — `DslIdent.hashAgree` accounts for that; an `Aliased` on the left
+of `==` with a non-element operable on the right is modelled as `false`.
 -/
 import ForML.Model.Dsl
 
